@@ -811,8 +811,50 @@ fn oracle_w<W: Wd>(rng: &mut Rng, w: u32, iters: usize, rep: &mut Report) {
     }
 }
 
+/// `Reverse<B>` over the bounded iterator adapters (not only over cursors): `is_exhausted()`,
+/// `remaining()` and the number of reads that succeed must agree, in both semantics
+fn oracle_reverse_adapters<W: Wd>(rng: &mut Rng, w: u32, reps: usize, rep: &mut Report) {
+    use constriction::backends::{BoundedReadWords, FallibleIteratorReadWords, ReadWords, Reverse};
+    use constriction::{Queue, Stack};
+    for _ in 0..reps {
+        let n = (rng.next() % 6) as usize;
+        let ws: Vec<W> = (0..n).map(|_| from_u128::<W>(rng.below(1u128 << w.min(63)))).collect();
+        let desc = format!("backend.reverse-iter {:x} | Reverse(FallibleIteratorReadWords over {} words)", w, n);
+        crate::util::set_case(&desc);
+        macro_rules! run {
+            ($S:ty, $name:expr) => {{
+                let mut r = Reverse(FallibleIteratorReadWords::new(ws.clone().into_iter().map(Ok::<W, std::convert::Infallible>)));
+                let mut left = n;
+                loop {
+                    rep.eval("C17");
+                    let rem = BoundedReadWords::<W, $S>::remaining(&r);
+                    let ex = BoundedReadWords::<W, $S>::is_exhausted(&r);
+                    if rem != left || ex != (left == 0) {
+                        rep.fail("C17", format!("{} | {} reads so far ({}) => remaining() = {:x}, is_exhausted() = {} but {:x} words are left", desc, n - left, $name, rem, ex, left));
+                        break;
+                    }
+                    match ReadWords::<W, $S>::read(&mut r) {
+                        Ok(Some(_)) if left > 0 => left -= 1,
+                        Ok(None) if left == 0 => break,
+                        other => {
+                            rep.fail("C17", format!("{} | read ({}) => {:?} with {:x} words left", desc, $name, other.map(|x| x.map(|v| to_u128(v))), left));
+                            break;
+                        }
+                    }
+                }
+            }};
+        }
+        run!(Stack, "stack");
+        run!(Queue, "queue");
+        rep.count("C17.reverse_over_iterator_adapter");
+    }
+}
+
 pub fn oracle(rng: &mut Rng, tier: &str, rep: &mut Report) {
     let iters = if tier == "thorough" { 20000 } else { 1500 };
+    let rr = if tier == "thorough" { 2000 } else { 100 };
+    oracle_reverse_adapters::<u8>(rng, 8, rr, rep);
+    oracle_reverse_adapters::<u32>(rng, 32, rr, rep);
     oracle_w::<u8>(rng, 8, iters, rep);
     oracle_w::<u16>(rng, 16, iters, rep);
     oracle_w::<u32>(rng, 32, iters, rep);
